@@ -16,6 +16,7 @@ type fileWL struct {
 	Want    []interface{} // model: the records of the written batches
 	Digest  uint64
 	Regions []string // per sink call
+	Foreign bool     // C11: holds an attachment written from another struct
 }
 
 func fileOpts(tier string, minBatches int, long bool) core.HistOpts {
